@@ -226,10 +226,11 @@ constexpr auto memset(CharT* const s, ValT const c, SizeT n) -> CharT*
 // Check original implementation. They use `__np_anyptrlt` which is not
 // portable. https://clc-wiki.net/wiki/C_standard_library:string.h:memmove
 template <typename CharT, typename SizeT>
-constexpr auto memmove(void* dest, void const* src, SizeT n) -> CharT*
+constexpr auto memmove(CharT* dest, CharT const* src, SizeT n) -> CharT*
 {
-    auto const* ps = static_cast<CharT const*>(src);
-    auto* pd       = static_cast<CharT*>(dest);
+    // typed pointers: a cast from void* is not allowed in a constant expression
+    auto const* ps = src;
+    auto* pd       = dest;
 
     if (ps < pd) {
         for (pd += n, ps += n; n-- != CharT(0);) {
@@ -241,7 +242,7 @@ constexpr auto memmove(void* dest, void const* src, SizeT n) -> CharT*
         }
     }
 
-    return static_cast<CharT*>(dest);
+    return dest;
 }
 
 template <typename CharT, typename SizeT>
